@@ -100,6 +100,36 @@ CHECKS = {
         note=TB + "Modelled, not verified: malloc/realloc succeed and hand out fresh blocks; self-copy and callers writing struct fields directly are "
              "outside the history grammar; dimension count < 256. Axioms: none.",
         technique="Coq proof by induction over histories of an allocation-id heap model of storage.c; differential vs the real storage.c with a logging allocator under ASan/LSan"),
+    "C14": dict(
+        family="fileio", design="6.14",
+        text="Machine-checked proof over an executable model of linux/platform.c's file_create/file_write (the write-all loop as fuelled recursion "
+             "over an arbitrary oracle of pwrite results) and of raw.c's set/start/append/stop/destroy: the loop returns success exactly for "
+             "short-write patterns that deliver everything with fewer than three zero-length results and no error, and then the file holds the "
+             "buffer in place and nothing else changed (Pwrite_all, Pwrite_fail, Pwrite_frame); for any list of set/start/append*/stop "
+             "acquisitions on one raw device, any OS state, any packet grouping and any admissible short-write script, each acquisition's file "
+             "is exactly the concatenation of its packets, also when an earlier acquisition wrote elsewhere or to the same path (C14_exact, "
+             "C14_exact_any_idle_device, C14_exact_scripts), and file://p and p configure every kind identically (C14_uri). Tied to the code on "
+             "every run by running the real raw.c + platform.c + HAL storage.c with open/pwrite/close/flock interposed at link time "
+             "(short-write scripts, call log) against the extracted model on thousands of generated cycles, comparing the syscall log and "
+             "the bytes of every file read back from disk; an independent oracle states 'file = concatenation of appended packets'.",
+        note=TB + "Modelled, not verified: POSIX semantics of the interposed calls (a map from paths to byte lists, lowest-free descriptor numbers); "
+             "errors other than short counts belong to C16. Axioms: none.",
+        technique="Coq proof of the pwrite write-all loop against any short-count oracle + induction over acquisition cycles; syscall-interposed differential with files read back"),
+    "C16": dict(
+        family="fileio", design="6.16",
+        text="Machine-checked proof over executable models of raw.c, tiff.cpp, side-by-side-tiff.cpp, trash.c and the HAL storage wrappers with a "
+             "descriptor-table model of the process and an OS oracle that may fail any create or write, transiently or persistently: for every "
+             "storage kind, every life-cycle history and every fault script, no call diverges (the write_/stop/terminate re-entrance has depth "
+             "at most 4; fuel exhaustion is an explicit outcome that is proved unreachable) (C16_terminates), a start or append inside which a "
+             "create/write failed answers Device_Err and leaves the device not Running (C16_reports), every flock/pwrite/close targets a "
+             "descriptor the device holds at that moment and after destroy each opened descriptor has been closed exactly once and no foreign "
+             "descriptor was closed (C16_owned_fds, C16_closed_once, C16_ledger). Tied to the code on every run by sweeping the fault index "
+             "over every create/write of generated histories on the real drivers (syscalls interposed, each case in a child process so that a "
+             "crash, unbounded recursion or hang is an observable) and comparing syscall logs and returned states with the extracted model; an "
+             "independent descriptor ledger over the syscall log finds concrete failing histories.",
+        note=TB + "Modelled, not verified: the kernel's descriptor allocation rule; the hypothesis that the runtime does not `set` a running device "
+             "(C08's subject) for the ownership theorems; realloc failure. Axioms: none.",
+        technique="Coq proof over driver models with a descriptor table and an arbitrary failing-OS oracle (termination by bounded re-entrance depth); fault-index sweep differential in child processes"),
     "C15": dict(
         family="tiff", design="6.15",
         text="Machine-checked proof over an executable byte-level model of tiff.cpp and side-by-side-tiff.cpp (header, 336-byte IFDs, strips, "
